@@ -177,6 +177,13 @@ Definition typed_handler (cfg : config) (typ : N) : option hkind :=
   if ack_handler cfg && (typ =? T_KeepAlive) then Some HAck
   else if existsb (N.eqb typ) (user_handlers cfg) then Some HUser
   else None.
+(* the FIRST message of a connection (checkInitialMessage): the handler of its type, else the default
+   handler, else nobody — there is no discard record for it (reader.go: checkInitialMessage) *)
+Definition first_handler (cfg : config) (typ : N) : option hkind :=
+  match typed_handler cfg typ with
+  | Some k => Some k
+  | None => if default_handler cfg then Some HDefault else None
+  end.
 Definition handler_for (cfg : config) (typ : N) : hkind :=
   match typed_handler cfg typ with
   | Some k => k
